@@ -173,6 +173,7 @@ def run(ctx):
     for t in ("generic.exec.some-used", "generic.query.some-used", "generic.exec.none-used", "generic.instantiate.some-used"):
         if ctx.tags.get(t, 0) == 0:
             ctx.violation("TAG", [t], "corpus", f"a corpus program exercising {t}", "none", "corpus adequacy")
+    C.corpus_adequacy(ctx, enforce=False)
     ctx.floor("C15.params", 300)
     return check.finish(
         ctx, "translation_validation",
